@@ -36,7 +36,7 @@ m = {
     'setup_cmd': './check --setup',
     'hooks': {
         'guard': 'verif',
-        'enable': 'go test -c -tags verif -modfile=/verif/build/<run>/go.mod -overlay=/verif/build/<run>/overlay.json (hook and harness files are injected by overlay; nothing is committed to /repo)',
+        'enable': 'go test -c -tags verif -modfile=/verif/build/<run>/go.mod -overlay=/verif/build/<run>/overlay.json (hook and harness files are injected by overlay; nothing is committed to /repo. Two overlays replace a file at build time only: the AST-instrumented copy of services/keepstore/unix_volume.go for C02/C04, regenerated from the working tree by tools/instrument, and a PAM-free stand-in of lib/controller/localdb/login_pam.go for C18-C20 because the PAM headers are absent)',
         'baseline_off_cmd': base['cmd'],
         'source_commits': specs.HOOK_COMMITS,
         'add_only': True,
